@@ -17,6 +17,10 @@ import (
 type vPub struct{ id string }
 
 func (k *vPub) Equals(o crypto.Key) bool {
+	if o == nil {
+		// the real keys call a method of the argument (crypto.KeyEquals -> k2.Raw())
+		panic("verif: Equals on a nil key")
+	}
 	p, ok := o.(*vPub)
 	return ok && p != nil && p.id == k.id
 }
